@@ -4,8 +4,8 @@
      "keys"    t(c1 INT PRIMARY KEY, c2 INT NULL UNIQUE, c3 INT NULL)          -- C13, C14, C16
      "keyless" s(c1 INT NULL, c2 INT NULL)                                      -- C13
      "both"    t and s together (thorough tier)
-     "cons"    t(c1 INT PRIMARY KEY, c2 INT NOT NULL DEFAULT 1, c3 INT NULL, c4 INT AS (c2 + 1) STORED,
-                 CHECK (c3 >= c2))                                              -- C19
+     "cons"    t(c1 INT PRIMARY KEY, c2 INT NOT NULL DEFAULT 1, c3 INT NULL, c4 INT AS (c2 + COALESCE(c3, 0)) STORED,
+                 CHECK (c3 >= c2), CHECK (c4 <= 3))   -- C19: a generated column over two base columns and a CHECK over it
      "auto"    t(c1 INT PRIMARY KEY AUTO_INCREMENT, c2 INT NULL UNIQUE)         -- C20
      "prefix"  t(c1 INT PRIMARY KEY, c2 VARCHAR NULL, UNIQUE KEY u1 (c2(2)))    -- C14: prefix unique key, values
                shorter than / equal to / longer than the prefix that share prefixes ('a' 'ab' 'abc' 'abd' 'b')
@@ -42,8 +42,9 @@ TKeyless == [cols |-> <<IntCol(FALSE), IntCol(FALSE)>>, checks |-> <<>>, pk |-> 
 TCons == [cols |-> <<IntCol(TRUE),
                      MkCol("i", "none", TRUE, TRUE, I(1), FALSE, FALSE, ELit(NULL)),
                      IntCol(FALSE),
-                     MkCol("i", "none", FALSE, FALSE, NULL, FALSE, TRUE, Plus1(cc2))>>,
-          checks |-> <<EOp2("ge", cc3, cc2)>>, pk |-> <<1>>, uniq |-> <<>>, rows |-> <<>>]
+                     MkCol("i", "none", FALSE, FALSE, NULL, FALSE, TRUE,
+                           EOp2("plus", cc2, [k |-> "fn", f |-> "coalesce", a |-> <<cc3, ELit(I(0))>>]))>>,
+          checks |-> <<EOp2("ge", cc3, cc2), EOp2("le", ECol(4, "none"), ELit(I(3)))>>, pk |-> <<1>>, uniq |-> <<>>, rows |-> <<>>]
 TAuto == [cols |-> <<MkCol("i", "none", TRUE, FALSE, NULL, TRUE, FALSE, ELit(NULL)), IntCol(FALSE)>>,
           checks |-> <<>>, pk |-> <<1>>,
           uniq |-> << [name |-> "u1", parts |-> << [col |-> 2, plen |-> 0] >>] >>, rows |-> <<>>]
